@@ -1652,13 +1652,6 @@ func (e *Env) callExpr(n *ast.CallExpr) tv {
 			return tv{VInt{Ite(lt, a.v.(VInt).T, b.v.(VInt).T)}, a.t}
 		case "sum":
 			return e.sumExpr(n)
-		case "allwf":
-			a := e.eval(n.Args[0])
-			sl, ok := a.v.(VSlice)
-			if !ok {
-				evalFail("allwf over non-slice in %q", e.in)
-			}
-			return tv{VBool{e.allWF(sl, a.t.Underlying().(*types.Slice).Elem())}, types.Typ[types.Bool]}
 		case "bbytes_eq", "bzero":
 			return e.bufBytesEq(id.Name, n)
 		case "sbytes_eq":
@@ -1704,6 +1697,14 @@ func (e *Env) callExpr(n *ast.CallExpr) tv {
 		}
 		if specs := e.ex.L.Contracts.Specs[id.Name]; len(specs) > 0 {
 			return e.specCall(id.Name, specs, n)
+		}
+		if strings.HasPrefix(id.Name, "all") && len(e.ex.L.Contracts.Specs[id.Name[3:]]) > 0 && len(n.Args) == 1 {
+			a := e.eval(n.Args[0])
+			sl, ok := a.v.(VSlice)
+			if !ok {
+				evalFail("%s over non-slice in %q", id.Name, e.in)
+			}
+			return tv{VBool{e.allPred(id.Name[3:], sl, a.t.Underlying().(*types.Slice).Elem())}, types.Typ[types.Bool]}
 		}
 	}
 	evalFail("unsupported call %s in %q", exprText(n.Fun), e.in)
@@ -1787,6 +1788,10 @@ func (e *Env) specApply(name string, specs []*SpecFunc, args []tv) tv {
 			rs := e.ex.L.Contracts.specResultSort(name)
 			t := App("spec:"+name, rs, iv.ID)
 			if strings.HasPrefix(name, "wf") {
+				if name == "wf" {
+					// for a value of unknown dynamic type: wf ==> wfl (proved for every implementer)
+					e.factState().assume(Implies(t, App("spec:wfl", BoolSort, iv.ID)))
+				}
 				return tv{VBool{And(Not(nilT(iv.Nil)), t)}, types.Typ[types.Bool]}
 			}
 			if rs.K == SBV {
@@ -1840,6 +1845,13 @@ func (e *Env) specApply(name string, specs []*SpecFunc, args []tv) tv {
 	tn := "untyped"
 	if a0.t != nil {
 		tn = typeStr(a0.t)
+	}
+	if name == "wfl" {
+		// default: Len() of this kind needs nothing from its receiver (proved: its Len is verified under this)
+		if p, ok := a0.v.(VPtr); ok {
+			return tv{VBool{Not(nilT(p.Nil))}, types.Typ[types.Bool]}
+		}
+		return tv{VBool{True}, types.Typ[types.Bool]}
 	}
 	evalFail("no spec %s for type %s in %q", name, tn, e.in)
 	return tv{}
@@ -1918,36 +1930,41 @@ func (e *Env) sumTerm(s VSlice, et types.Type, k *Term) *Term {
 	return t
 }
 
-// wfOf evaluates wf(v) for a value of static type t through the user's wf specs (abstract interfaces:
-// uninterpreted predicate of the identity, implying non-nil).
-func (e *Env) wfOf(v Value, t types.Type) *Term {
-	specs := e.ex.L.Contracts.Specs["wf"]
-	r := e.specApply("wf", specs, []tv{{v, t}})
+// predOf evaluates the boolean spec pred(v) for a value of static type t (abstract interfaces: uninterpreted
+// predicate of the identity; predicates whose name starts with "wf" imply non-nil).
+func (e *Env) predOf(pred string, v Value, t types.Type) *Term {
+	specs := e.ex.L.Contracts.Specs[pred]
+	r := e.specApply(pred, specs, []tv{{v, t}})
 	b, ok := r.v.(VBool)
 	if !ok {
-		evalFail("wf is not boolean")
+		evalFail("%s is not boolean", pred)
 	}
 	return b.T
 }
 
-// allWF: every element of the slice satisfies wf. Assumed: recorded on the sequence and instantiated at every
+func (e *Env) wfOf(v Value, t types.Type) *Term { return e.predOf("wf", v, t) }
+
+// impliedPreds: recording all<p> also records all<q> for every q that p implies (wf ==> wfl: proved per kind).
+var impliedPreds = map[string][]string{"wf": {"wfl"}}
+
+// allPred: every element of the slice satisfies pred. Assumed: recorded on the sequence and instantiated at every
 // element read (and for elements already materialised). Proved: at a skolem index.
-func (e *Env) allWF(s VSlice, et types.Type) *Term {
+func (e *Env) allPred(pred string, s VSlice, et types.Type) *Term {
 	if s.Obj == 0 {
 		return True
 	}
 	o := e.st.heap[s.Obj]
 	if o == nil || o.Kind != okSeq {
-		evalFail("allwf over non-sequence object in %q", e.in)
+		evalFail("all%s over non-sequence object in %q", pred, e.in)
 	}
 	if !s.Off.IsConst() || s.Off.Val != 0 {
-		evalFail("allwf over re-sliced sequence in %q", e.in)
+		evalFail("all%s over re-sliced sequence in %q", pred, e.in)
 	}
 	if e.negated {
 		// hypothesis position: finitely many instances
 		r := True
 		for _, k := range e.instAt {
-			r = And(r, Implies(ULt(k, s.Len), e.seqWFAt(o, k, len(o.Seq.entries)-1, et)))
+			r = And(r, Implies(ULt(k, s.Len), e.seqPredAt(pred, o, k, len(o.Seq.entries)-1, et)))
 		}
 		return r
 	}
@@ -1955,39 +1972,56 @@ func (e *Env) allWF(s VSlice, et types.Type) *Term {
 		hi := Ite(e.guard, s.Len, Const(64, 0))
 		c := *o
 		q := *o.Seq
-		if q.allWF != nil {
-			hi = Ite(ULt(q.allWF, hi), hi, q.allWF)
+		nm := map[string]*Term{}
+		for k, v := range q.allWF {
+			nm[k] = v
 		}
-		q.allWF = hi
+		preds := append([]string{pred}, impliedPreds[pred]...)
+		fs := e.factState()
+		for _, pn := range preds {
+			if len(e.ex.L.Contracts.Specs[pn]) == 0 {
+				continue
+			}
+			h2 := hi
+			if old := nm[pn]; old != nil {
+				h2 = Ite(ULt(old, hi), hi, old)
+			}
+			nm[pn] = h2
+		}
+		q.allWF = nm
 		c.Seq = &q
 		e.st.heap[s.Obj] = &c
-		fs := e.factState()
 		for _, me := range append(append([]seqEntry{}, q.entries...), q.memo...) {
-			fs.assume(Implies(ULt(me.idx, hi), e.wfOf(me.val, et)))
+			for _, pn := range preds {
+				if len(e.ex.L.Contracts.Specs[pn]) == 0 {
+					continue
+				}
+				fs.assume(Implies(ULt(me.idx, hi), e.predOf(pn, me.val, et)))
+			}
 		}
 		return True
 	}
-	k := Fresh("allwf_k", BV(64))
+	k := Fresh("all"+pred+"_k", BV(64))
 	if e.skolems != nil {
 		*e.skolems = append(*e.skolems, k)
 	}
-	return Implies(ULt(k, s.Len), e.seqWFAt(o, k, len(o.Seq.entries)-1, et))
+	return Implies(ULt(k, s.Len), e.seqPredAt(pred, o, k, len(o.Seq.entries)-1, et))
 }
 
-// seqWFAt: wf of the element at symbolic index k, by cases over the stored entries, then the base.
-func (e *Env) seqWFAt(o *Object, k *Term, upto int, et types.Type) *Term {
+// seqPredAt: pred of the element at symbolic index k, by cases over the stored entries, then the base.
+func (e *Env) seqPredAt(pred string, o *Object, k *Term, upto int, et types.Type) *Term {
 	q := o.Seq
 	for i := upto; i >= 0; i-- {
 		en := q.entries[i]
-		return Ite(Eq(en.idx, k), e.wfOf(en.val, et), e.seqWFAt(o, k, i-1, et))
+		return Ite(Eq(en.idx, k), e.predOf(pred, en.val, et), e.seqPredAt(pred, o, k, i-1, et))
 	}
 	if q.zero {
 		return False
 	}
 	base := e.st.seqReadFrom(o, k, -1)
-	w := e.wfOf(base, et)
-	if q.allWF != nil {
-		return Or(ULt(k, q.allWF), w)
+	w := e.predOf(pred, base, et)
+	if hi := q.allWF[pred]; hi != nil {
+		return Or(ULt(k, hi), w)
 	}
 	return w
 }
